@@ -1948,3 +1948,264 @@ func ErrIndexOfCall(call ssa.CallInstruction) int {
 	}
 	return -1
 }
+
+// Loop is a natural loop of a function's CFG: the header and the blocks that
+// can reach one of its back edges without leaving through the header.
+type Loop struct {
+	Header *ssa.BasicBlock
+	Blocks map[*ssa.BasicBlock]bool
+}
+
+// Loops lists the natural loops of fn (loops sharing a header are merged).
+func Loops(fn *ssa.Function) []Loop {
+	var out []Loop
+	for _, h := range fn.Blocks {
+		var l *Loop
+		for _, p := range h.Preds {
+			if !h.Dominates(p) {
+				continue
+			}
+			if l == nil {
+				l = &Loop{Header: h, Blocks: map[*ssa.BasicBlock]bool{h: true}}
+			}
+			stack := []*ssa.BasicBlock{p}
+			for len(stack) > 0 {
+				b := stack[len(stack)-1]
+				stack = stack[:len(stack)-1]
+				if l.Blocks[b] {
+					continue
+				}
+				l.Blocks[b] = true
+				stack = append(stack, b.Preds...)
+			}
+		}
+		if l != nil {
+			out = append(out, *l)
+		}
+	}
+	return out
+}
+
+// Contains reports whether in lies in the loop.
+func (l Loop) Contains(in ssa.Instruction) bool { return l.Blocks[in.Block()] }
+
+// Direct reports whether in lies in l but in none of the loops nested in it.
+func (l Loop) Direct(in ssa.Instruction, all []Loop) bool {
+	if !l.Contains(in) {
+		return false
+	}
+	for _, o := range all {
+		if o.Header != l.Header && l.Blocks[o.Header] && o.Blocks[in.Block()] {
+			return false
+		}
+	}
+	return true
+}
+
+// EarlyExits lists the edges that leave the loop from a block other than its
+// header (break, return, goto out of the body).
+func (l Loop) EarlyExits() []Edge {
+	var out []Edge
+	for b := range l.Blocks {
+		if b == l.Header {
+			continue
+		}
+		for _, s := range b.Succs {
+			if !l.Blocks[s] {
+				out = append(out, Edge{From: b, To: s})
+			}
+		}
+		if len(b.Succs) == 0 {
+			out = append(out, Edge{From: b})
+		}
+	}
+	return out
+}
+
+// EveryIterationPasses reports whether every path of one iteration — from the
+// header into the body and back to the header — passes the block blk.
+func (l Loop) EveryIterationPasses(blk *ssa.BasicBlock) bool {
+	if blk == l.Header {
+		return true
+	}
+	seen := map[*ssa.BasicBlock]bool{}
+	var stack []*ssa.BasicBlock
+	for _, s := range l.Header.Succs {
+		if l.Blocks[s] {
+			stack = append(stack, s)
+		}
+	}
+	for len(stack) > 0 {
+		b := stack[len(stack)-1]
+		stack = stack[:len(stack)-1]
+		if b == blk || seen[b] {
+			continue
+		}
+		if b == l.Header {
+			return false
+		}
+		seen[b] = true
+		for _, s := range b.Succs {
+			if l.Blocks[s] {
+				stack = append(stack, s)
+			}
+		}
+	}
+	return true
+}
+
+// Bound is the value Base+Off (Base == nil: the constant Off).
+type Bound struct {
+	Base ssa.Value
+	Off  int64
+}
+
+// Span is the set of values [Lo, Hi] (both inclusive) a loop index takes in
+// the loop body.
+type Span struct {
+	Lo, Hi Bound
+	Down   bool
+	Header *ssa.BasicBlock
+}
+
+// DecomposeInt writes v as base+off, folding additions/subtractions of
+// constants.
+func DecomposeInt(v ssa.Value) Bound {
+	if k, ok := intConst(v); ok {
+		return Bound{Off: k}
+	}
+	if b, ok := v.(*ssa.BinOp); ok && (b.Op == token.ADD || b.Op == token.SUB) {
+		if k, ok := intConst(b.Y); ok {
+			in := DecomposeInt(b.X)
+			if b.Op == token.SUB {
+				k = -k
+			}
+			return Bound{Base: in.Base, Off: in.Off + k}
+		}
+		if k, ok := intConst(b.X); ok && b.Op == token.ADD {
+			in := DecomposeInt(b.Y)
+			return Bound{Base: in.Base, Off: in.Off + k}
+		}
+	}
+	return Bound{Base: v}
+}
+
+// IndexSpan recognises the counting loops of go/ssa and returns the values the
+// index idx takes in the loop body:
+//
+//	for j := init; j >= lo; j--      idx = phi[init, idx-1]       [lo, init]
+//	for j := init; j <  hi; j++      idx = phi[init, idx+1]       [init, hi-1]
+//	for i := range s / range n       idx = phi[-1, idx'] + 1      [0, len-1]
+//
+// ok is false for any other shape (non-unit step, condition not on idx, index
+// assigned in the body).
+func IndexSpan(idx ssa.Value) (Span, bool) {
+	var phi *ssa.Phi
+	rangeForm := false
+	switch x := idx.(type) {
+	case *ssa.Phi:
+		phi = x
+	case *ssa.BinOp:
+		if p, ok := x.X.(*ssa.Phi); ok && x.Op == token.ADD && IsIntConst(x.Y, 1) {
+			phi, rangeForm = p, true
+		}
+	}
+	if phi == nil || len(phi.Edges) != 2 {
+		return Span{}, false
+	}
+	hdr := phi.Block()
+	// which edge is the step
+	var init ssa.Value
+	step := int64(0)
+	for i, e := range phi.Edges {
+		o := phi.Edges[1-i]
+		if rangeForm {
+			if e == idx {
+				init, step = o, 1
+			}
+			continue
+		}
+		if b, ok := e.(*ssa.BinOp); ok && b.X == ssa.Value(phi) && IsIntConst(b.Y, 1) {
+			switch b.Op {
+			case token.ADD:
+				init, step = o, 1
+			case token.SUB:
+				init, step = o, -1
+			}
+		}
+	}
+	if step == 0 {
+		return Span{}, false
+	}
+	iff, ok := hdr.Instrs[len(hdr.Instrs)-1].(*ssa.If)
+	if !ok {
+		return Span{}, false
+	}
+	cmp, ok := iff.Cond.(*ssa.BinOp)
+	if !ok {
+		return Span{}, false
+	}
+	// the successor that stays in the loop
+	var loop *Loop
+	for _, l := range Loops(hdr.Parent()) {
+		if l.Header == hdr {
+			ll := l
+			loop = &ll
+		}
+	}
+	if loop == nil {
+		return Span{}, false
+	}
+	inT, inF := loop.Blocks[hdr.Succs[0]], loop.Blocks[hdr.Succs[1]]
+	if inT == inF {
+		return Span{}, false
+	}
+	op, x, y := cmp.Op, cmp.X, cmp.Y
+	if y == idx {
+		op, x, y = flipOp(op), y, x
+	}
+	if x != idx {
+		return Span{}, false
+	}
+	if !inT {
+		op = negOp(op)
+	}
+	sp := Span{Down: step < 0, Header: hdr}
+	if step < 0 {
+		k, isK := intConst(y)
+		if !isK {
+			return Span{}, false
+		}
+		switch op {
+		case token.GEQ:
+			sp.Lo = Bound{Off: k}
+		case token.GTR:
+			sp.Lo = Bound{Off: k + 1}
+		case token.NEQ:
+			sp.Lo = Bound{Off: k + 1}
+		default:
+			return Span{}, false
+		}
+		sp.Hi = DecomposeInt(init)
+		return sp, true
+	}
+	if rangeForm {
+		if !IsIntConst(init, -1) {
+			return Span{}, false
+		}
+		sp.Lo = Bound{Off: 0}
+	} else {
+		lo := DecomposeInt(init)
+		sp.Lo = lo
+	}
+	hi := DecomposeInt(y)
+	switch op {
+	case token.LSS, token.NEQ:
+		hi.Off--
+	case token.LEQ:
+	default:
+		return Span{}, false
+	}
+	sp.Hi = hi
+	return sp, true
+}
